@@ -16,7 +16,7 @@ RULE = ('HEAP lines: random histories (<=14 steps) that create objects, derive n
         'non-trivial = a history with at least one derivation followed by a mutation')
 TECHNIQUE = 'Lean 4 theorems on a heap model (fresh allocation on every route except index views, no-sharing invariant by induction over histories, frame property of mutations, write-through of views) + differential correspondence of object states and sharing graphs'
 LEVEL_TEXT = ('Machine-checked on the heap model: every derivation route allocates config, status and buffer cells that no live object refers to (views - rows, strided and reversed slices, columns - share only the buffer), the pairwise-disjointness invariant is preserved by every operation along any history, no creating step changes the codes, flags or configuration of an existing object, '
-              'a mutation of one object leaves the observable state of every object it shares no cell with unchanged, and an indexed write through a view lands on the base element at the view's position (off + k*stride), which the base reads back. '
+              'a mutation of one object leaves the observable state of every object it shares no cell with unchanged, and an indexed write through a view lands on the base element at the position off + k*stride of the view, which the base reads back. '
               'The implementation\'s object states and its real sharing graph are compared with the model after every step of random derive-then-mutate histories.')
 LEVEL_NOTE = 'Trusted: Lean kernel + standard axioms; allocation behaviour of the routes is modelled from the code and tied to it by the sharing-graph correspondence; "inputs unchanged" and "invalid config rejected" are observed on the implementation.'
 
